@@ -88,6 +88,9 @@ struct FlushWaker {
     wakes: AtomicU64,
     nexts_at_wake: AtomicU64,
     ctl: Arc<StreamCtl>,
+    /// Some: what this waker does, once, on whichever thread wakes it, before it reports the wake-up (an executor
+    /// that polls inline, a task that asks for the next flush as soon as the last one is through)
+    chain: std::sync::Mutex<Option<Box<dyn FnOnce() + Send>>>,
 }
 
 impl Wake for FlushWaker {
@@ -97,6 +100,10 @@ impl Wake for FlushWaker {
     fn wake_by_ref(self: &Arc<Self>) {
         // called synchronously by whoever completes the flush (the writer thread): remember how
         // far the stream had got at that moment
+        let chained = self.chain.lock().ok().and_then(|mut g| g.take());
+        if let Some(f) = chained {
+            f();
+        }
         self.nexts_at_wake.store(self.ctl.nexts_done.load(Ordering::SeqCst), Ordering::SeqCst);
         self.wakes.fetch_add(1, Ordering::SeqCst);
         self.woken.store(true, Ordering::SeqCst);
@@ -189,13 +196,32 @@ fn do_flush(sh: &Shared, h: &Handle, op: &Value) {
     let start_nexts = sh.ctl.nexts_done.load(Ordering::SeqCst);
     sh.hist.log(K::FlushReq { fid });
     let fut = h.flush();
-    drive_flush(sh, fid, fut, op, start_nexts);
+    // an eighth of the awaited requests: the waker itself asks for the next flush, through a handle of its own, on the
+    // thread that wakes it (the writer thread, inside its completion of this request); that second request is kept
+    // alive, un-awaited, to the end of the run
+    let chain: Option<Box<dyn FnOnce() + Send>> = if js(op, "mode", "await") == "await" && mix(sh.run_key, fid ^ 0xC4A1_77) % 8 == 0 {
+        sh.me.lock().unwrap().clone().map(|shc| {
+            let hc = h.clone();
+            Box::new(move || {
+                let fid2 = shc.next_fid.fetch_add(1, Ordering::SeqCst);
+                shc.hist.log(K::FlushReq { fid: fid2 });
+                let f = hc.flush();
+                shc.held.lock().unwrap().push(f);
+                shc.hist.log(K::FlushCancelled { fid: fid2 });
+                shc.hist.log(K::Note("flush_requested_from_inside_a_waker".into()));
+            }) as Box<dyn FnOnce() + Send>
+        })
+    } else {
+        None
+    };
+    drive_flush(sh, fid, fut, op, start_nexts, chain);
 }
 
 /// Wait for (or abandon) a flush request that has been made, as `op` says.
-fn drive_flush(sh: &Shared, fid: u64, fut: FlushWait, op: &Value, start_nexts: u64) {
+fn drive_flush(sh: &Shared, fid: u64, fut: FlushWait, op: &Value, start_nexts: u64, chain: Option<Box<dyn FnOnce() + Send>>) {
     let mode = js(op, "mode", "await");
     let mut fut = fut;
+    let chain = std::cell::RefCell::new(chain);
     let new_waker = || {
         Arc::new(FlushWaker {
             key: detsim::fresh_key(),
@@ -203,6 +229,8 @@ fn drive_flush(sh: &Shared, fid: u64, fut: FlushWait, op: &Value, start_nexts: u
             wakes: AtomicU64::new(0),
             nexts_at_wake: AtomicU64::new(0),
             ctl: sh.ctl.clone(),
+            // (a migrating future: the latest waker has it)
+            chain: std::sync::Mutex::new(None),
         })
     };
     // a quarter of the requests: the future is handed from task to task while it is pending - every poll comes with
@@ -217,8 +245,13 @@ fn drive_flush(sh: &Shared, fid: u64, fut: FlushWait, op: &Value, start_nexts: u
     loop {
         detsim::yield_point();
         if migrate && !first {
+            let carried = fw.chain.lock().unwrap().take();
             fw = new_waker();
+            *chain.borrow_mut() = carried;
             sh.hist.log(K::Note("flush_future_polled_with_another_waker".into()));
+        }
+        if let Some(c) = chain.borrow_mut().take() {
+            *fw.chain.lock().unwrap() = Some(c);
         }
         let waker = Waker::from(fw.clone());
         let mut cx = Context::from_waker(&waker);
@@ -588,7 +621,7 @@ fn queue_main(plan: &Value, slot: Arc<Mutex<Option<QueueRun>>>) {
                 sh2.hist.log(K::Note("flush_requested_on_the_writer_thread".into()));
                 let fut = h2.flush();
                 let sh3 = sh2.clone();
-                let t = detsim::thread::spawn_named("flush-awaiter", move || drive_flush(&sh3, fid, fut, &json!({"mode":"await"}), start_nexts));
+                let t = detsim::thread::spawn_named("flush-awaiter", move || drive_flush(&sh3, fid, fut, &json!({"mode":"await"}), start_nexts, None));
                 sh2.awaiters.lock().unwrap().push(t);
             }
         });
@@ -1252,6 +1285,7 @@ fn finish_report(mut r: Report, out: detsim::Outcome, run: Option<QueueRun>, pla
                     K::FlushEnd { ok: false, .. } => f_err += 1,
                     K::FlushCancelled { .. } => r.fault("future_cancelled", 1),
                     K::Forget => r.fault("handle_forgotten", 1),
+                    K::Note(n) if n == "flush_requested_from_inside_a_waker" => r.fault("flush_requested_from_inside_a_waker", 1),
                     _ => {}
                 }
             }
